@@ -1,5 +1,4 @@
-CONSTANTS Writers = {w1, w2}  Faults = 3  FixF3 = TRUE FixF6 = TRUE FixF7 = TRUE FixF8 = TRUE LargeBatch = TRUE WithClose = TRUE Sticky = FALSE
+CONSTANTS Writers = {w1, w2}  Faults = 3  FixF3 = TRUE FixF6 = TRUE FixF7 = TRUE FixF8 = TRUE FixF9 = TRUE LargeBatch = TRUE WithClose = TRUE Sticky = FALSE KComp = 1
 SPECIFICATION Spec
 INVARIANTS NoStuck NoLeak
-PROPERTY Live
 CHECK_DEADLOCK FALSE
